@@ -124,3 +124,8 @@ def fingerprint(r, clauses):
 def sample(r):
     return dict(files=[''.join(chr(c) for c in f['name']) for f in r['files']][:8], argv=r['argv'], count=r['count'],
                 listed=len(r['list']), shown=len(r['all']))
+
+
+def corrupt(r):
+    r['count'] += 1
+    return r
